@@ -93,6 +93,68 @@ pub enum AsciiOnly {
 }
 codes!(AsciiOnly { W = 0 });
 
+// ---- utf8 = false twins of the str lexers (C12): on valid UTF-8 the two modes must agree on
+// every Ok item and on the set of bytes covered by errors, for EVERY character
+#[derive(Logos, Debug, PartialEq, Clone, Copy)]
+#[logos(utf8 = false)]
+pub enum OneCharB {
+    #[regex("(?s:.)")]
+    C,
+}
+codes!(OneCharB { C = 0 });
+
+#[derive(Logos, Debug, PartialEq, Clone, Copy)]
+#[logos(utf8 = false)]
+pub enum WidthsB {
+    #[regex("[\\x00-\\x7f]+")]
+    W1,
+    #[regex("[\\u{80}-\\u{7ff}]+")]
+    W2,
+    #[regex("[\\u{800}-\\u{ffff}]+")]
+    W3,
+    #[regex("[\\u{10000}-\\u{10ffff}]+")]
+    W4,
+}
+codes!(WidthsB { W1 = 0, W2 = 1, W3 = 2, W4 = 3 });
+
+#[derive(Logos, Debug, PartialEq, Clone, Copy)]
+#[logos(utf8 = false)]
+#[logos(skip("[\\u{80}-\\u{10ffff}]"))]
+pub enum AsciiTokB {
+    #[regex("[a-z]+")]
+    W,
+}
+codes!(AsciiTokB { W = 0 });
+
+#[derive(Logos, Debug, PartialEq, Clone, Copy)]
+#[logos(utf8 = false)]
+pub enum AsciiOnlyB {
+    #[regex("[a-z]+")]
+    W,
+}
+codes!(AsciiOnlyB { W = 0 });
+
+/// error items that are not lower-case ASCII, next to characters of every width: the str lexer
+/// rounds error ends to character boundaries, the byte lexer does not - the COVERED BYTES are equal
+#[derive(Logos, Debug, PartialEq, Clone, Copy)]
+pub enum PunctS {
+    #[regex("[a-z]+")]
+    W,
+    #[regex("[\\u{80}-\\u{10ffff}]")]
+    Hi,
+}
+codes!(PunctS { W = 0, Hi = 1 });
+
+#[derive(Logos, Debug, PartialEq, Clone, Copy)]
+#[logos(utf8 = false)]
+pub enum PunctB {
+    #[regex("[a-z]+")]
+    W,
+    #[regex("[\\u{80}-\\u{10ffff}]")]
+    Hi,
+}
+codes!(PunctB { W = 0, Hi = 1 });
+
 const ERR: u8 = 255;
 type Items = Vec<(u8, usize, usize)>;
 
@@ -246,6 +308,39 @@ where
     }
 }
 
+/// the same definition in str mode and with utf8 = false on one valid UTF-8 input
+fn case_modes<TS, TB>(name: &str, input: &str, partial: bool, a: &mut Items, b: &mut Items, acc: &mut Acc)
+where
+    TS: for<'s> Logos<'s, Source = str> + Code,
+    for<'s> <TS as Logos<'s>>::Extras: Default,
+    TB: for<'s> Logos<'s, Source = [u8]> + Code,
+    for<'s> <TB as Logos<'s>>::Extras: Default,
+{
+    a.clear();
+    b.clear();
+    let r = std::panic::catch_unwind(std::panic::AssertUnwindSafe(|| {
+        let ls = if partial { Lexer::<TS>::new_partial(input) } else { Lexer::<TS>::new(input) };
+        let lb = if partial { Lexer::<TB>::new_partial(input.as_bytes()) } else { Lexer::<TB>::new(input.as_bytes()) };
+        observe(ls, input.len(), a) && observe(lb, input.len(), b)
+    }));
+    acc.runs += 2;
+    acc.next_calls += (a.len() + b.len()) as u64 + 2;
+    let oks = |v: &Items| v.iter().filter(|x| x.0 != ERR).cloned().collect::<Vec<_>>();
+    let errs = |v: &Items| {
+        let mut m = vec![false; input.len() + 1];
+        for (_, s, e) in v.iter().filter(|x| x.0 == ERR) {
+            for i in *s..(*e).min(input.len()) {
+                m[i] = true;
+            }
+        }
+        m
+    };
+    let ok = matches!(r, Ok(true)) && oks(a) == oks(b) && errs(a) == errs(b);
+    if !ok && acc.bad.len() < 6 {
+        acc.bad.push((format!("{name} (str mode vs utf8 = false){}", if partial { " (partial)" } else { "" }), input.as_bytes().to_vec(), format!("str mode yields {:?}, utf8 = false yields {:?}{}: the Ok items or the bytes covered by errors differ", a, b, if r.is_err() { " (a PANIC)" } else { "" })));
+    }
+}
+
 fn all_byte_cases(input: &[u8], want: &mut Items, got: &mut Items, acc: &mut Acc) {
     case_bytes::<OneByte>("OneByte", input, false, exp_one_byte, want, got, acc);
     case_bytes::<OneByte>("OneByte", input, true, exp_one_byte, want, got, acc);
@@ -256,6 +351,11 @@ fn all_byte_cases(input: &[u8], want: &mut Items, got: &mut Items, acc: &mut Acc
 }
 
 fn all_str_cases(input: &str, want: &mut Items, got: &mut Items, acc: &mut Acc) {
+    case_modes::<OneChar, OneCharB>("OneChar", input, false, want, got, acc);
+    case_modes::<Widths, WidthsB>("Widths", input, false, want, got, acc);
+    case_modes::<AsciiTok, AsciiTokB>("AsciiTok", input, false, want, got, acc);
+    case_modes::<AsciiOnly, AsciiOnlyB>("AsciiOnly", input, false, want, got, acc);
+    case_modes::<PunctS, PunctB>("Punct", input, false, want, got, acc);
     case_str::<OneChar>("OneChar", input, false, &exp_one_char, want, got, acc);
     case_str::<OneChar>("OneChar", input, true, &exp_one_char, want, got, acc);
     case_str::<Widths>("Widths", input, false, &exp_widths, want, got, acc);
@@ -329,7 +429,7 @@ pub fn run(tier: &str, rep: &mut Report) {
                     }
                     // ---- str mode: all strings of <= 3 characters over the characters at which the
                     // UTF-8 encoding, the classes of the definitions or well-known special cases change
-                    let special: Vec<char> = [0u32, 0x09, 0x0a, 0x0d, 0x20, 0x60, 0x61, 0x7a, 0x7b, 0x7f, 0x80, 0x85, 0xa0, 0xff, 0x7ff, 0x800, 0x2028, 0xd7ff, 0xe000, 0xfeff, 0xfffd, 0xfffe, 0xffff, 0x10000, 0x1f60a, 0x10ffff]
+                    let special: Vec<char> = [0u32, 0x09, 0x0a, 0x0d, 0x20, 0x60, 0x61, 0x7a, 0x7b, 0x21, 0x3f, 0x7f, 0x80, 0x85, 0xa0, 0xa3, 0xbf, 0xc0, 0xff, 0x100, 0x7ff, 0x800, 0x2028, 0xd7ff, 0xe000, 0xfeff, 0xfffd, 0xfffe, 0xffff, 0x10000, 0x1f60a, 0x10ffff]
                         .iter()
                         .filter_map(|u| char::from_u32(*u))
                         .collect();
@@ -380,7 +480,7 @@ pub fn run(tier: &str, rep: &mut Report) {
     rep.bounds.insert(
         "rule".into(),
         format!(
-            "8 universal lexers (real derive): byte mode - every byte string of length <= {} over all 256 values (one byte per token, runs per half, skipped upper half, lower-case runs with one-byte errors; ordinary and partial lexers); str mode - every Unicode scalar value alone, after and before an ASCII letter, and all strings of <= 3 characters over 26 boundary characters (one character per token, runs per encoded width, ASCII words with per-character errors / skips). Oracle by construction: items, spans, char boundaries, final None at the end.",
+            "8 universal lexers (real derive) and 5 str / utf8 = false twins (Ok items and error-covered bytes must agree on every str input): byte mode - every byte string of length <= {} over all 256 values (one byte per token, runs per half, skipped upper half, lower-case runs with one-byte errors; ordinary and partial lexers); str mode - every Unicode scalar value alone, after and before an ASCII letter, and all strings of <= 3 characters over 33 boundary characters (one character per token, runs per encoded width, ASCII words with per-character errors / skips). Oracle by construction: items, spans, char boundaries, final None at the end.",
             if full4 { 4 } else if full3 { 3 } else { 2 }
         ),
     );
